@@ -184,24 +184,27 @@ static void _meta_fini(void) {
 	}
 }
 static void _meta_init(void) {
+	struct named_traits_chunk *chunk;
 	MPT_STRUCT(named_traits) *base;
 	
-	if (!(meta_types = malloc(sizeof(*meta_types)))) {
+	if (!(chunk = malloc(sizeof(*chunk)))) {
 		return;
 	}
-	meta_types->used = 0;
-	atexit(_meta_fini);
-	
 	if (!(base = malloc(sizeof(*base) + sizeof(pointer_traits)))) {
+		free(chunk);
 		return;
 	}
 	*((const void **) &base->traits) = memcpy(base + 1, &pointer_traits, sizeof(pointer_traits));
 	*((const char **) &base->name) = "metatype";
 	*((MPT_TYPE(type) *) &base->type) = MPT_ENUM(_TypeMetaPtrBase);
 	
-	meta_types->traits[0] = base;
-	meta_types->next = 0;
-	meta_types->used = 1;
+	chunk->traits[0] = base;
+	chunk->next = 0;
+	chunk->used = 1;
+	
+	/* publish complete table only */
+	meta_types = chunk;
+	atexit(_meta_fini);
 }
 /* interface resources */
 static void _interfaces_fini(void) {
@@ -595,7 +598,9 @@ extern const MPT_STRUCT(named_traits) *mpt_type_metatype_add(const char *name)
 	
 	if (!(ext = meta_types)) {
 		_meta_init();
-		ext = meta_types;
+		if (!(ext = meta_types)) {
+			return 0;
+		}
 	}
 	
 	if (name) {
@@ -671,6 +676,13 @@ extern const MPT_STRUCT(named_traits) *mpt_type_interface_add(const char *name)
 	
 	if (name) {
 		nlen = strlen(name);
+		/* unable to check metatype names */
+		if (!meta_types) {
+			_meta_init();
+			if (!meta_types) {
+				return 0;
+			}
+		}
 		/* name must be unique for metatypes and interfaces */
 		if (_named_find(name, nlen)) {
 			errno = EINVAL;
